@@ -855,6 +855,7 @@ func profSplit(t *tape.Tape) model.Profile {
 	return model.Profile{
 		Mods: [2]int{1, 2}, Subs: [2]int{0, 0}, Typedefs: [2]int{1, 4}, Identities: [2]int{0, 4}, Groupings: [2]int{1, 4},
 		TopNodes: [2]int{2, 6}, Augments: [2]int{0, 3}, Deviations: [2]int{0, 0}, Depth: 3, Extras: t.Chance(1, 3),
+		Posix: t.Sub("posix").Chance(1, 4),
 	}
 }
 
@@ -865,7 +866,7 @@ func splitLast(s *model.Scenario, t *tape.Tape) (*model.Scenario, int) {
 	n := s.Clone()
 	var m *model.Mod
 	for _, x := range n.Mods {
-		if !x.IsSub() {
+		if !x.IsSub() && x.Name != model.PosixModule {
 			m = x
 		}
 	}
